@@ -150,7 +150,7 @@ CHECKS = {
         "groups": [
             {"name": "c07", "run": "^TestC07_", "shards": {"quick": 16, "thorough": 16},
              "timeout": {"quick": 900, "thorough": 3000},
-             "checks": ["c07-upgrade"]},
+             "checks": ["c07-upgrade", "c07-paused-poll"]},
         ],
     },
     "C14": {
